@@ -185,7 +185,11 @@ pub fn run(o: &Opts, drv: &mut Driver, rep: &mut Report) {
     let n = (if o.tier == "thorough" { 2500 } else { 24 }) * o.scale;
     for k in 0..n {
         let x = match k % 6 { 0 => Scalar::ZERO, 1 => Scalar::ONE, 2 => -Scalar::ONE, _ => Scalar::random(&mut rng) };
-        let base = match k % 4 { 0 => ProjectivePoint::GENERATOR, _ => ProjectivePoint::GENERATOR * Scalar::random(&mut rng) };
+        let mut base = match k % 4 { 0 => ProjectivePoint::GENERATOR, _ => ProjectivePoint::GENERATOR * Scalar::random(&mut rng) };
+        // statements / bases that coincide with distinguished points: y = G with B != G (B = x^-1 G), y = -G, B = -G, y = B (x = 1)
+        if k % 8 == 5 { if let Some(xi) = Option::<Scalar>::from(x.invert()) { base = ProjectivePoint::GENERATOR * xi; } }
+        if k % 8 == 6 { if let Some(xi) = Option::<Scalar>::from(x.invert()) { base = -(ProjectivePoint::GENERATOR * xi); } }
+        if k % 16 == 7 { base = -ProjectivePoint::GENERATOR; }
         let sid: Vec<u8> = (0..[0usize, 1, 32, 32, 200][k as usize % 5]).map(|_| rng.gen()).collect();
         let ctx = Ctx { sid, party: [0usize, 1, 7, 65535, 1 << 40][rng.gen_range(0..5)], action: if rng.gen_range(0..4) == 0 { vec![] } else { (0..rng.gen_range(0..12)).map(|_| rng.gen()).collect() }, label: LABELS[rng.gen_range(0..3)] };
         let mut tape = vec![0u8; 160]; rng.fill_bytes(&mut tape);
